@@ -25,6 +25,7 @@ import CelerVerif.Lemmas.CsgDeMorganD
 import CelerVerif.Lemmas.CsgReach
 import CelerVerif.Lemmas.CsgDeMorganF
 import CelerVerif.Lemmas.CsgInfix
+import CelerVerif.Lemmas.CsgRuntime
 
 namespace CelerVerif.Csg
 open CelerVerif.Generated.Csg
@@ -294,6 +295,37 @@ theorem flagSimple_sound_denote {t : Tree} (inv : TreeInv t) (hna : NoNegAlias t
 theorem flagSimple_sound_chain {t : Tree} (s : Struct t) (hch : NoNegAliasJoin t) {n : Nat}
     (hn : n < t.size) (h : flag t n = some false) : IsConj t n :=
   (flagInternal_simple_chain s hch (t.size + 1) (t.size + 1) (Nat.le_refl _) n hn h).1
+
+/-! ### the flag the tracker reads (UnitProto → UnitInserter → VolumeView) -/
+
+/-- ★ `runtimeFlag_sound`: for the modelled `UnitInserter::insert_volume` + `process_daughter`
+    (flag values and statement texts regenerated / pattern-checked from the source): if the
+    (flags, logic) pair handed to `UnitInserter` satisfies "internal_surfaces unset ⇒ the logic is
+    a constant times a conjunction of face literals", so does the pair stored in the
+    `VolumeRecord` — for any faces (simple or not), with or without the forced-limit replacement
+    (whose `nowhere` logic is constant false), with or without a daughter universe.  In
+    particular no step clears the `internal_surfaces` bit (`runtimeInternal_eq`). -/
+theorem runtimeFlag_sound (inFlags : Nat) (logic : List Nat) (ss ex dau : Bool)
+    (hin : runtimeInternalSurfaces inFlags = false → LogicIsConj logic)
+    (hout : runtimeInternalSurfaces (runtimeFlags inFlags ss ex dau) = false) :
+    LogicIsConj (insertVolumeLogic logic ex) :=
+  runtimeFlag_sound_of_input inFlags logic ss ex dau hin hout
+
+/-- ★ the whole chain for volumes built from a CSG tree: flagger answer → `UnitProto::build` flag
+    → `UnitInserter` → `VolumeView::internal_surfaces()`.  If the runtime flag is not set, the
+    stored postfix logic of the volume is, in every model of the tree, a constant times a
+    conjunction of surface literals (an intersection of half-spaces). -/
+theorem runtimeFlag_sound_proto {t : Tree} (s : Struct t) (hch : NoNegAliasJoin t)
+    (hsurf : ∀ i k, i < t.size → t.get i = .surface k → k < lbegin)
+    (mapping : Option (List Nat)) (hmap : MappingOk t mapping) {n : Nat} (hn : n < t.size)
+    {faces lgc : List Nat} (hp : postfixOf t mapping n = some (faces, lgc))
+    {fl : Bool} (hfl : flag t n = some fl) (ext ss dau : Bool)
+    (hout : runtimeInternalSurfaces
+      (runtimeFlags (protoVolumeFlags fl ext) ss false dau) = false) :
+    ∃ (c : Bool) (L : List Lit), ∀ σ v, Models t σ v →
+      evalRef (insertVolumeLogic lgc false) (fun f => mapVals σ mapping (faces.getD f 0))
+        = some (c && litsHold σ L) :=
+  runtimeFlag_sound_chain s hch hsurf mapping hmap hn hp hfl ext ss dau hout
 
 /-! ### infix encoding and `InfixEvaluator` -/
 
@@ -702,6 +734,25 @@ example (σ : Nat → Bool) : infixEval [lopen, 0, land, 1, lclose] σ = denote 
 example : IsConj ex1 4 :=
   flagSimple_sound_chain treeInv_ex1.struct
     (noNegAliasJoin_of_noNegAlias ex1_side_conditions.2) (by decide) (by decide)
+
+-- runtime flag: a volume with input flags 0, simple faces and a daughter keeps the bit unset;
+-- one with the bit set keeps it set through `process_daughter` (the seeded-defect scenario)
+example : runtimeFlags 0 true false true = 12 ∧ runtimeInternalSurfaces 12 = false ∧
+    runtimeFlags 1 true false true = 13 ∧ runtimeInternalSurfaces 13 = true := by decide
+example : LogicIsConj (insertVolumeLogic [0, 1, lnot, land] false) :=
+  runtimeFlag_sound 0 [0, 1, lnot, land] true false true
+    (fun _ => ⟨true, [(0, true), (1, false)], fun vals => by
+      unfold evalRef
+      rw [evalRefLoop_operand _ (by decide), evalRefLoop_operand _ (by decide), evalRefLoop_not,
+        evalRefLoop_and]
+      simp [evalRefLoop, litsHold]⟩) (by decide)
+-- the whole chain on node 4 of `ex1` (flagger says simple)
+example : ∃ (c : Bool) (L : List Lit), ∀ σ v, Models ex1 σ v →
+    evalRef [0, 1, land] (fun f => σ ([0, 1].getD f 0)) = some (c && litsHold σ L) :=
+  runtimeFlag_sound_proto treeInv_ex1.struct (noNegAliasJoin_of_noNegAlias ex1_side_conditions.2)
+    ex1_side_conditions.1 none trivial (n := 4) (by decide)
+    (show postfixOf ex1 none 4 = some ([0, 1], [0, 1, land]) by decide)
+    (show flag ex1 4 = some false by decide) false true true (by decide)
 
 -- (f): node 4 of `ex1` is flagged simple and is the conjunction S0 ∧ S1
 example : ∃ (c : Bool) (L : List Lit), ∀ σ, denote ex1 σ 4 = (c && litsHold σ L) :=
